@@ -92,3 +92,58 @@ func vhQueryStep(mode int, maxQ int) {
 
 func VHarnessQueryC15() { vhQueryStep(vhC15, 2) }
 func VHarnessQueryC06() { vhQueryStep(vhC06, 2) }
+
+// C15 under storage faults: a state check / restore during which one storage call fails either reports an error or still
+// tells the truth - it never answers successfully with part of the truth missing.
+func VHarnessFaultQueryC15() {
+	env := vhNewEnv(1)
+	env.hook()
+	m := env.m
+	raw := env.db.VhRaw()
+	v.SqlSymRows(raw, "proofs", 1)
+	v.SqlSymRows(raw, "blind_signatures", 2)
+	n := v.Int("nQ", 1, 2)
+	bms := make(cashu.BlindedMessages, n)
+	ys := make([]string, n)
+	for i := range bms {
+		bms[i] = cashu.BlindedMessage{Amount: v.U64(fmt.Sprintf("bm%d.amount", i)), Id: v.Str(fmt.Sprintf("bm%d.id", i)), B_: v.Str(fmt.Sprintf("bm%d.B_", i))}
+		ys[i] = v.Str(fmt.Sprintf("y%d", i))
+	}
+	var outs cashu.BlindedMessages
+	var sigs cashu.BlindedSignatures
+	var rerr error
+	if v.Int("op", 0, 1) == 0 {
+		hit := v.FaultRun(func() { outs, sigs, rerr = m.RestoreSignatures(bms) })
+		if hit {
+			v.Reach("restore-struck")
+		}
+		if rerr == nil {
+			v.Reach("restore-answered")
+			nSigned := 0
+			for i := range bms {
+				signed := v.Not(v.ZEq(v.SqlCount(raw, "blind_signatures", "b_", bms[i].B_), v.ZU(0)))
+				if signed {
+					nSigned++
+				}
+			}
+			v.Assert(v.And(len(outs) == nSigned, len(sigs) == nSigned), "C15 a restore that answers (also when a storage call failed underneath) returns every signed message of the request")
+		}
+	} else {
+		var states []nut07.ProofState
+		var serr error
+		hit := v.FaultRun(func() { states, serr = m.ProofsStateCheck(ys) })
+		if hit {
+			v.Reach("checkstate-struck")
+		}
+		if serr == nil {
+			v.Reach("checkstate-answered")
+			v.Assert(len(states) == n, "C15 a state check that answers returns one state per Y")
+			for i := range states {
+				if i < n {
+					spent := v.Not(v.ZEq(v.SqlCount(raw, "proofs", "y", ys[i]), v.ZU(0)))
+					v.Assert((states[i].State == nut07.Spent) == spent, "C15 a state check that answers (also when a storage call failed underneath) reports SPENT exactly for the spent Ys")
+				}
+			}
+		}
+	}
+}
